@@ -102,6 +102,14 @@ pub fn mode(p: &str) -> String {
     }
 }
 
+/// `hardlink P Q`: Q becomes a second name of the file P (parents of Q are created)
+pub fn hardlink(p: &str, q: &str) -> String {
+    unit((|| {
+        create_parents(q)?;
+        fs::hard_link(p, q)
+    })())
+}
+
 pub fn cat(p: &str) -> String {
     match fs::read(p) {
         Ok(d) => format!("ok {}", hex_tok(&d)),
